@@ -29,6 +29,8 @@ func Main(args []string) int {
 		return cmdCheck(args[1:])
 	case "replay":
 		return cmdReplay(args[1:])
+	case "known":
+		return cmdKnown(args[1:])
 	case "warmup":
 		return cmdWarmup(args[1:])
 	}
